@@ -134,6 +134,12 @@ def signal_pipeline(method, d, N, M, gridkind):
     ocp = spec.ocp
     v = ocp.variable(grid="bspline", order=d)
     ocp.subject_to(v <= 1.0)
+    # the whole derivative chain is requested BEFORE the transcription (constraints on der(v), der(der(v)), ...)
+    ders, cur = [], v
+    for nu in range(1, d + 1):
+        cur = ocp.der(cur)
+        ders.append(cur)
+        ocp.subject_to(cur <= 10.0 + nu)
     inst = "C17/signal[%s,d=%d,N=%d,M=%d,%s]" % (method, d, N, M, gridkind)
     meth = spec.transcribe()
     sig = meth.signals[v]
@@ -150,6 +156,23 @@ def signal_pipeline(method, d, N, M, gridkind):
             col = col[:N]
         want.append(sum((Cf[:, i] * col[i] for i in range(len(col))), ca.MX(0.0)))
     nlp.prove_equal(inst + "|stage:Stage.sample:ensures:control-samples-are-cox-de-boor", val, ca.hcat(want))
+    # every derivative of the chain, sampled through the transcription: analytic derivative coefficients (per unit physical
+    # time: 1/T per derivative) x Cox-de Boor basis of one degree less
+    coeff, deg = Cf, d
+    Tm = ca.MX(meth.T)
+    for nu, dsym in enumerate(ders, 1):
+        Kd = clamped(xi, deg)
+        coeff = ca.hcat([(coeff[:, i + 1] - coeff[:, i]) * (Fr(deg) / (Kd[i + deg + 1] - Kd[i + 1])) for i in range(coeff.shape[1] - 1)]) / Tm
+        deg -= 1
+        Kn = clamped(xi, deg)
+        t, val = ocp.sample(dsym, grid="control")
+        want = []
+        for j in range(N + 1):
+            col = cox_de_boor(Kn, deg, xi[j])
+            if deg == 0:
+                col = col[:N]
+            want.append(sum((coeff[:, i] * col[i] for i in range(len(col))), ca.MX(0.0)))
+        nlp.prove_equal(inst + "|sampling_method:BSplineSignal.register:ensures:derivative-%d-sampled-through-the-transcription" % nu, val, ca.hcat(want))
     # refined samples
     for r in (2, 3):
         t, val = ocp.sample(v, grid="integrator", refine=r)
@@ -192,7 +215,7 @@ def tasks(tier):
     return out
 
 
-def signal_in_dynamics(kind, method):
+def signal_in_dynamics(kind, method, with_der=False):
     """a b-spline signal inside the dynamics: interval k is propagated with the signal's value at node k
     (and every other symbol of the ODE with its own value -- the layout obligation of get_p_sys)"""
     from rockit import Ocp, MultipleShooting, SingleShooting
@@ -209,13 +232,16 @@ def signal_in_dynamics(kind, method):
     else:
         s = ocp.parameter(grid="bspline", order=1)
     ocp.set_der(x, ufun("f", 2, [x, u, s, w, wc, q]))
+    if with_der:
+        # the derivative of the signal is used as well (here in the objective): the dynamics still see the signal ITSELF
+        ocp.add_objective(ocp.at_tf(ocp.der(s)))
     N = 2
     if kind == "parameter":
         ocp.set_value(s, unknown("sv", 1, N + 1))
     ocp.solver("ipopt")
     M = dict(MS=MultipleShooting, SS=SingleShooting)[method]
     ocp.method(M(N=N, M=1, intg="rk"))
-    inst = "C17/signal-in-dynamics[%s,%s]" % (kind, method)
+    inst = "C17/signal-in-dynamics[%s,%s%s]" % (kind, method, ",der(s) used" if with_der else "")
     ocp._transcribed
     aug = ocp._augmented
     meth = aug._method
@@ -278,6 +304,55 @@ def signal_derivative_chain(d, N, kind):
         cur, coeff, deg = nxt, want, deg - 1
 
 
+def dynamics_independent_of_der(method, kind, prop="C17"):
+    """the constraint rows of a problem whose dynamics contain a b-spline signal s are the same whether or not der(s) is
+    ALSO used somewhere (here: in the objective): the system functions are fed with s itself, at every collocation time /
+    integrator point (metamorphic: two transcriptions of the real code compared row by row)"""
+    from rockit import Ocp, MultipleShooting, DirectCollocation
+    from . import c13
+    c = ctx()
+    def build(use_der):
+        ocp = Ocp(T=unknown("horizon_T", positive=True), t0=unknown("horizon_t0"))
+        x = ocp.state(2); u = ocp.control(); w = ocp.variable()
+        s = ocp.variable(grid="bspline", order=2) if kind == "variable" else ocp.parameter(grid="bspline", order=2)
+        s2 = ocp.variable(grid="bspline", order=1)
+        ocp.set_der(x, ufun("f", 2, [x, u, s, s2, w, ocp.t]))
+        ocp.subject_to(ufun("c", 1, [x, s]) <= 1)
+        ocp.add_objective(ocp.at_tf(ufun("m", 1, [x])))
+        if use_der:
+            ocp.add_objective(ocp.at_tf(ocp.der(s)))
+        if kind == "parameter":
+            ocp.set_value(s, unknown("sv", 1, 2 + 2))
+        ocp.solver("ipopt")
+        ocp.method(MultipleShooting(N=2, M=2, intg="rk") if method == "MS" else DirectCollocation(N=2, M=2, degree=2))
+        ocp._transcribed
+        return ocp
+    a, b = c13.signature(build(False)), c13.signature(build(True))
+    name = "%s/signal-dynamics-with-and-without-der[%s,%s]|%s:ensures:rows-do-not-depend-on-der(s)-being-used" % (
+        prop, method, kind, "direct_collocation:DirectCollocation.add_constraints" if method == "DC" else "multiple_shooting:MultipleShooting.add_constraints")
+    if len(a["rows"]) != len(b["rows"]):
+        c.fail(name, "%d constraint rows without der(s), %d with it" % (len(a["rows"]), len(b["rows"])))
+        return
+    for i, ((k1, r1), (k2, r2)) in enumerate(zip(a["rows"], b["rows"])):
+        ok, _ = nlp.equal_terms(r1, r2) if k1 == k2 else (False, None)
+        if ok is None:
+            c.unknown(name, "row %d undecided" % i)
+            return
+        if not ok:
+            c.fail(name, "row %d: %s %s without der(s), %s %s with it" % (i, k1, ca._short(r1), k2, ca._short(r2)))
+            return
+    c.ok(name, detail="%d rows identical" % len(a["rows"]), backend="z3")
+
+
+def der_independence_tasks(tier, prop):
+    out = []
+    for m in (("DC",) if prop == "C02" else ("MS",) if prop == "C01" else ("MS", "DC")):
+        for kind in ("variable", "parameter"):
+            inst = "%s/signal-dynamics-with-and-without-der[%s,%s]" % (prop, m, kind)
+            out.append(Task(inst, guarded(lambda m=m, kind=kind: dynamics_independent_of_der(m, kind, prop), inst), kind="bounded", bound=dict(method=m, signal=kind, N=2, M=2, orders=[2, 1])))
+    return out
+
+
 def derivative_chain_sequence(d, N, order):
     """the derivative-chain contract for several knot vectors of the SAME size and degree one after the other in ONE
     process (stages on different grids, OCPs transcribed one after another): the result for a grid does not depend on
@@ -330,7 +405,7 @@ def sequence_tasks(tier, prop):
             for order in (("uniform", "geometric"), ("geometric", "uniform")):
                 inst = "%s/derivative-chain-in-sequence[d=%d,N=%d,%s]" % (prop, d, N, " then ".join(order))
                 out.append(Task(inst, guarded(lambda d=d, N=N, order=order: derivative_chain_sequence(d, N, order), inst), kind="bounded", bound=dict(order=d, N=N, knot_vectors_in_one_process=list(order), T="symbolic"),
-                                replay=dict(harness="task_probe", module="contracts.%s" % prop.lower(), task=inst, tier=tier)))
+                                replay=dict(harness="task_probe", module="contracts.c17", task=inst.replace(prop + "/", "C17/", 1), tier=tier)))
     return out
 
 
@@ -344,9 +419,13 @@ def tasks(tier):
             out.append(Task(inst, guarded(lambda d=d, N=N, kname=kname: signal_derivative_chain(d, N, kname), inst), kind="bounded", bound=dict(order=d, N=N, knots=kname, T="symbolic"),
                             replay=dict(harness="task_probe", module="contracts.c17", task=inst, tier=tier)))
     out += sequence_tasks(tier, "C17")
+    out += der_independence_tasks(tier, "C17")
     for kind in ("variable", "parameter"):
         for m in ("MS", "SS"):
             inst = "C17/signal-in-dynamics[%s,%s]" % (kind, m)
             out.append(Task(inst, guarded(lambda kind=kind, m=m: signal_in_dynamics(kind, m), inst), kind="bounded", bound=dict(signal=kind, method=m, N=2, order=1),
                             replay=dict(harness="signal_probe", kind=kind, method=m)))
+            inst = "C17/signal-in-dynamics[%s,%s,der(s) used]" % (kind, m)
+            out.append(Task(inst, guarded(lambda kind=kind, m=m: signal_in_dynamics(kind, m, True), inst), kind="bounded", bound=dict(signal=kind, method=m, N=2, order=1, derivative_of_the_signal="in the objective"),
+                            replay=dict(harness="signal_probe", kind=kind, method=m, with_der=True)))
     return out
